@@ -1,6 +1,7 @@
 package btchecks
 
 import (
+	"context"
 	"fmt"
 	"os"
 	"testing"
@@ -65,3 +66,5 @@ func fail(prop string, step int, op *bt.Op, msg string) *vt.Failure {
 	}
 	return vt.Failf(prop, "%s", msg)
 }
+
+func nil2ctx() context.Context { return context.Background() }
